@@ -107,6 +107,8 @@ def point_frame(n, pattern, extras, scale=1.0):
         d['label'] = [None if i % 3 == 1 else f'{i + 1:03d}' for i in range(n)]
     if extras == 'nan-partial':
         d['enthalpy'] = [float('nan') if i % 2 == 0 else round(40.0 - 1.5 * i, 3) for i in range(n)]
+    if extras == 'bool-marks':              # the branch marks given as booleans (False = adsorption), as the constructor documents for `branch=[...]`
+        d['branch'] = [bool(b) for b in d['branch']]
     if extras == 'infinities':
         # a ratio / selectivity column: +inf, -inf and NaN next to ordinary numbers
         d['selectivity'] = [[float('inf'), 12.5, float('nan'), 3.25, float('-inf'), 8.0, float('inf')][i % 7] for i in range(n)]
@@ -125,6 +127,7 @@ ZERO_SHAPES = [(n, pat, ex) for n in (2, 4, 7) for pat in ('ads-from-zero', 'hys
 EARLY_SHAPES = [(n, pat, 'early-name') for n in (4, 7) for pat in ('guessable', 'all-ads', 'all-des', 'user-alternating')]
 WORDS_SHAPES = [(n, pat, 'branch-words') for n in (4, 7) for pat in ('guessable', 'all-ads', 'all-des', 'user-alternating')]
 TEXTNUM_SHAPES = [(n, 'all-ads', ex) for n in (1, 4, 7) for ex in ('text-numeric', 'text-numeric-gaps')]
+BOOL_SHAPES = [(n, pat, 'bool-marks') for n in (2, 4, 7) for pat in ('guessable', 'all-ads', 'all-des', 'user-alternating') if not (n < 3 and pat == 'guessable')]
 INF_SHAPES = [(n, pat, 'infinities') for n in (1, 4, 7) for pat in ('all-ads', 'guessable') if not (n < 3 and pat == 'guessable')]
 
 
